@@ -3,7 +3,7 @@
 # applies <patch> (reversed with -R) to /repo's working tree, runs the command, then restores the tree.
 REV=""
 if [ "$1" = "-R" ]; then REV="-R"; shift; fi
-PATCH="$1"; shift; shift
+PATCH="$(realpath "$1")"; shift; shift
 git -C /repo diff --quiet || { echo "with_patch: /repo working tree is dirty" >&2; exit 3; }
 git -C /repo apply $REV "$PATCH" || { echo "with_patch: patch does not apply" >&2; exit 3; }
 "$@"
